@@ -59,10 +59,10 @@ package extendeddaemonset
 //@   ensures [C05] adopt-when-active-missing: activeRS == nil ==> result == upToDateRS
 //@   ensures [C05] promotion: result == upToDateRS && activeRS != nil && activeRS != upToDateRS ==>
 //@             C == nil || valid || (C.ValidationMode != "manual" && timeOK && !paused && !failed)
-//@   ensures [C05] failed-never-by-time: activeRS != nil && activeRS != upToDateRS && C != nil && failed && !valid ==> result == activeRS
+//@   ensures [C05,C19] failed-never-by-time: activeRS != nil && activeRS != upToDateRS && C != nil && failed && !valid ==> result == activeRS
 //@   ensures [C05] manual-never-by-time: activeRS != nil && activeRS != upToDateRS && C != nil && C.ValidationMode == "manual" && !valid ==> result == activeRS
-//@   ensures [C05,C08] paused-not-promoted-by-time: activeRS != nil && activeRS != upToDateRS && C != nil && paused && !valid ==> result == activeRS
-//@   ensures promotes-when-allowed: activeRS != nil && activeRS != upToDateRS &&
+//@   ensures [C05,C08,C19] paused-not-promoted-by-time: activeRS != nil && activeRS != upToDateRS && C != nil && paused && !valid ==> result == activeRS
+//@   ensures [C19] promotes-when-allowed: activeRS != nil && activeRS != upToDateRS &&
 //@             (C == nil || valid || (C.ValidationMode != "manual" && timeOK && C.Duration.Duration > 0 && !paused && !failed)) ==> result == upToDateRS
 //@
 //@ import edsconditions "github.com/DataDog/extendeddaemonset/controllers/extendeddaemonset/conditions"
@@ -81,7 +81,7 @@ package extendeddaemonset
 //@   requires status != nil && upToDate != nil && daemonset != nil
 //@   modifies *status, *status.Canary
 //@   ensures result == status
-//@   ensures [C07,C14] failed-clears-canary: isCanaryFailed ==> status.Canary == nil && status.State == "Canary Failed" && status.Reason == ""
+//@   ensures [C07,C14,C19] failed-clears-canary: isCanaryFailed ==> status.Canary == nil && status.State == "Canary Failed" && status.Reason == ""
 //@             && status.Desired == old(status.Desired) && status.UpToDate == old(status.UpToDate)
 //@   ensures [C08,C14,C19] active-paused: !isCanaryFailed && isCanaryActive && isCanaryPaused ==> status.State == "Canary Paused" && status.Reason == pausedReason
 //@   ensures [C14,C19] active-running: !isCanaryFailed && isCanaryActive && !isCanaryPaused ==> status.State == "Canary" && status.Reason == ""
